@@ -7,7 +7,7 @@ seeds="$@"; [ -z "$seeds" ] && seeds=$(ls seeded | grep -E '^C[0-9]+[a-z]$')
 for s in $seeds; do
   p=${s:0:3}
   for chk in $p ${EXTRA[$s]}; do
-    out=$(tools/try_seed.sh seeded/$s/patch.diff $chk quick 2>&1)
+    out=$(tools/try_seed.sh /verif/seeded/$s/patch.diff $chk quick 2>&1)
     rc=$(echo "$out" | grep -o 'exit=[0-9]*' | tail -1 | cut -d= -f2)
     first=$(echo "$out" | grep -m1 -A1 '^VIOLATION' | tail -1 | cut -c1-260 | tr '\t' ' ')
     verdict=missed; [ "$rc" = "1" ] && verdict=detected; [ "$rc" != "0" ] && [ "$rc" != "1" ] && verdict="error(rc=$rc)"
